@@ -78,6 +78,11 @@ def build_harness():
             for p, n in procs:
                 o, _ = p.communicate()
                 if p.returncode != 0:
+                    if n == "leaf":
+                        # the direct harness reaches static functions by name and signature: a change to one of them is reported
+                        # by the checks that use it (as an obligation), it does not stop the scenario harness
+                        open(os.path.join(out, "leaf.err"), "w").write(o[-4000:])
+                        continue
                     errs.append("%s: %s" % (n, o[-4000:]))
             if errs:
                 raise BuildError("\n".join(errs))
@@ -89,8 +94,11 @@ def build_harness():
     finally:
         fcntl.flock(lock, fcntl.LOCK_UN)
         lock.close()
+    leaf_err = os.path.join(out, "leaf.err")
     return {"dir": out, "drv": os.path.join(out, "drv"), "thr": os.path.join(out, "thr"),
-            "num": os.path.join(out, "num"), "econftool": os.path.join(out, "econftool"), "leaf": os.path.join(out, "leaf"), "hash": hsh}
+            "num": os.path.join(out, "num"), "econftool": os.path.join(out, "econftool"),
+            "leaf": None if os.path.exists(leaf_err) else os.path.join(out, "leaf"),
+            "leaf_error": open(leaf_err).read() if os.path.exists(leaf_err) else None, "hash": hsh}
 
 
 def lake_build(targets, pre=None):
